@@ -9,15 +9,16 @@ PROP_FILE = "props/C06.v"
 LEVEL = "proof"
 TRUSTED_BASE = [
     "hand-written Gallina model of parser.rs / grammar.rs (forest + checkpoints) and of the evaluator; the precedence stack abstracted "
-    "into frames (spec/Climb.v) with climb = canon proved for any number of operators, tied to the concrete parser model by kernel "
-    "computation for all operator sequences of length <= 5 (and all one-gap layout variants)",
+    "into frames (spec/Climb.v) with climb = canon proved for any number of operators; the parser model proved to simulate the frames "
+    "step by step (ParseGeneral.v) and to build, for every well-formed expression (every operand kind of value(), casts, calls, any "
+    "nesting, any blanks), the tree of the documented grammar (ParseChains.v); model priorities proved equal to the translated table",
     "correspondence: anything::query vs Run.query on every generated expression",
     "independent evaluator over the expression tree (Python fractions) as the specification oracle: the printed text omits every "
     "parenthesis that precedence and left-associativity make redundant",
 ]
 ASSUMPTIONS = [
-    "parenthesised operands, function arguments and `to` are covered by correspondence and oracle on generated inputs, and by the "
-    "bounded computation only for flat operator sequences; the general refinement from the forest model to the frames is not proved",
+    "the unbounded theorems are about token lists of well-formed expressions; what the parser does outside that syntax (error recovery) "
+    "and what non-numeric operands evaluate to is covered by correspondence and oracle on generated inputs",
 ]
 
 OPS = "+-*/^"
